@@ -142,12 +142,12 @@ def arrays_of(res):
             out.extend(arrays_of(r))
         return out
     if hasattr(res, "proj_data"):
-        return [np.asarray(res.proj_data)]
-    return [np.asarray(res)]
+        return [np.array(res.proj_data)]       # copy: queries normalise in place
+    return [np.array(res)]
 
 
 def compare_variants(run, entry, variants, post=None, cls=(), expected=None,
-                     integer_ok=False):
+                     integer_ok=False, require_float=True):
     """variants: label -> thunk.  All must succeed, give non-object inexact
     arrays, agree numerically, and survive `post` (follow-up library calls)."""
     mon = run.monitor("packaging")
@@ -175,7 +175,7 @@ def compare_variants(run, entry, variants, post=None, cls=(), expected=None,
                      case)
             continue
         notfloat = [str(a.dtype) for a in arrs if a.dtype.kind not in "fc"]
-        if notfloat and not integer_ok:
+        if notfloat and not integer_ok and require_float:
             mon.fail("packaging/non-float-dtype/%s/%s" % (entry, label),
                      "%s with %s packaging returned %s data for real input (floating point expected)"
                      % (entry, label, notfloat[0]), case)
@@ -225,13 +225,32 @@ def std_rotation_ref(a, d):
     return M.T
 
 
+def int_packagings(x):
+    """an integer-valued real parameter in every packaging (the reference
+    variant, listed first, is the Python float)."""
+    return {"python-float": float(x), "python-int": int(x), "numpy-int64": np.int64(x),
+            "int-0d-array": np.array(int(x)), "numpy-float64": np.float64(x),
+            "numpy-int32": np.int32(x)}
+
+
 def wl_packaging_scalar(run, rng, idx):
     from geometry_tools import utils, hyperbolic
     from geometry_tools.hyperbolic import Isometry, IdealPoint, Polygon, TangentVector, Point
-    a = float(rng.uniform(-2 * math.pi, 2 * math.pi))
     d = int(rng.integers(2, 5))
     n = int(rng.integers(3, 9))
-    pk = scalar_packagings(a)
+    if idx % 3 == 2:
+        # integer-valued parameters (an angle of 1 radian, a radius of 2, ...)
+        a = float(rng.integers(-6, 7))
+        pk = int_packagings(a)
+        scalar_pk = int_packagings
+        r_int = float(rng.integers(1, 4))
+        t_int = float(rng.integers(-3, 4))
+        par_int = float(rng.integers(2, 8))
+    else:
+        a = float(rng.uniform(-2 * math.pi, 2 * math.pi))
+        pk = scalar_packagings(a)
+        scalar_pk = scalar_packagings
+        r_int = t_int = par_int = None
     ca, sa = math.cos(a), math.sin(a)
     compare_variants(run, "utils.rotation_matrix",
                      {k: (lambda v=v: utils.rotation_matrix(v)) for k, v in pk.items()},
@@ -249,24 +268,26 @@ def wl_packaging_scalar(run, rng, idx):
                      {k: (lambda v=v: IdealPoint.from_angle(v)) for k, v in pk.items()},
                      post=lambda p: p.coords("poincare"))
     ang = float(rng.uniform(0.05, 0.95)) * (n - 2) * math.pi / n
+    if r_int is not None and (n - 2) * math.pi / n > 1.0:
+        ang = 1.0
     compare_variants(run, "Polygon.regular_polygon(angle)",
                      {k: (lambda v=v: Polygon.regular_polygon(n, angle=v))
-                      for k, v in scalar_packagings(ang).items()},
+                      for k, v in (scalar_pk(ang) if ang == 1.0 else scalar_packagings(ang)).items()},
                      post=lambda P: P.coords("klein"), cls=(n,))
-    rad = float(rng.uniform(0.1, 3.0))
+    rad = float(rng.uniform(0.1, 3.0)) if r_int is None else r_int
     compare_variants(run, "Polygon.regular_polygon(radius)",
                      {k: (lambda v=v: Polygon.regular_polygon(n, radius=v))
-                      for k, v in scalar_packagings(rad).items()},
+                      for k, v in scalar_pk(rad).items()},
                      post=lambda P: P.coords("poincare"), cls=(n,))
-    par = float(rng.uniform(1.1, 8.0))
+    par = float(rng.uniform(1.1, 8.0)) if par_int is None else par_int
     compare_variants(run, "Isometry.standard_loxodromic",
                      {k: (lambda v=v: Isometry.standard_loxodromic(d, v))
-                      for k, v in scalar_packagings(par).items()},
+                      for k, v in scalar_pk(par).items()},
                      post=lambda T: (T.inv(), T.fixed_point_pair()), cls=(d,))
-    t = float(rng.uniform(-3, 3))
+    t = float(rng.uniform(-3, 3)) if t_int is None else t_int
     compare_variants(run, "TangentVector.point_along",
                      {k: (lambda v=v: TangentVector.get_base_tangent(d).normalized().point_along(v))
-                      for k, v in scalar_packagings(t).items()},
+                      for k, v in scalar_pk(t).items()},
                      post=lambda p: p.coords("klein"), cls=(d,))
     for fname in ("array_like", "zeros", "ones", "identity", "number"):
         f = getattr(utils, fname)
@@ -282,7 +303,10 @@ def wl_packaging_scalar(run, rng, idx):
         else:
             th = {k: (lambda v=v: f((2, 2), like=v)) for k, v in pk.items()}
             th["nested-list"] = lambda: f((2, 2), like=[a])
-        compare_variants(run, "utils." + fname, th)
+        # an integer `like` legitimately gives an integer array here
+        # (integer_type=True is the factories' documented default): only
+        # 'never object' and equal values are required of the factories
+        compare_variants(run, "utils." + fname, th, integer_ok=True)
     if idx < 2:
         run.sample({"angle": a, "dimension": d, "n": n})
 
@@ -343,6 +367,83 @@ def wl_packaging_matrix(run, rng, idx):
     compare_variants(run, "projective.Transformation",
                      {k: (lambda v=v: projective.Transformation(v)) for k, v in matrix_packagings(A).items()},
                      post=lambda T: (T.inv(), T @ projective.Point(np.ones(d + 1))), cls=(d,))
+
+
+INT_POINTS = {
+    # integer homogeneous / model coordinates of interior points, per model
+    "projective": [[2, 1, 0], [3, 1, -1], [5, 2, 3], [-4, 1, 2], [7, -3, 2, 4]],
+    "hyperboloid": [[3, 2, 2], [9, 4, 8], [-3, 2, 2], [1, 0, 0]],
+    "halfspace": [[1, 2], [-3, 1], [0, 5], [2, 0, 3]],
+    "klein": [[0, 0], [0, 0, 0]],
+    "poincare": [[0, 0]],
+}
+
+
+def unit_rep(v):
+    """projective representative: divided by its entry of largest modulus."""
+    v = np.asarray(v, dtype=float)
+    i = np.argmax(np.abs(v), axis=-1)
+    return v / np.take_along_axis(v, i[..., None], axis=-1)
+
+
+def int_data_packagings(v):
+    a = np.array(v)
+    return {"float-ndarray": a.astype(float), "int-nested-list": [int(x) for x in v],
+            "int-ndarray": a.astype(np.int64), "int32-ndarray": a.astype(np.int32),
+            "float-nested-list": [float(x) for x in v],
+            "tuple-of-ints": tuple(int(x) for x in v)}
+
+
+def wl_packaging_integer_data(run, rng, idx):
+    """integer-valued coordinates and matrices (real numeric input in integer
+    packaging): same geometric object as the float packaging, and every
+    follow-up query the library offers succeeds on it.  The stored dtype may
+    stay integral for coordinate / matrix data (exact values); what is judged
+    is values and the success of the library's own routines."""
+    from geometry_tools import hyperbolic, projective
+    from geometry_tools.hyperbolic import Isometry, Point, Segment
+    models = sorted(INT_POINTS)
+    model = models[idx % len(models)]
+    pts = INT_POINTS[model]
+    v = pts[(idx // len(models)) % len(pts)]
+    d = len(v) - (1 if model in ("projective", "hyperboloid") else 0)
+    other = np.full(d, 0.25)
+
+    def post(p):
+        q = Point(other, model="klein")
+        return (p.coords("klein"), p.coords("poincare"), p.coords("hyperboloid") ** 2,
+                p.coords("halfspace"), p.distance(q), q.distance(p),
+                (p.origin_to() @ Point.get_origin(d)).coords("klein"),
+                Segment(p, q).ideal_endpoint_coords("klein") ** 2)
+    compare_variants(run, "hyperbolic.Point(integer coordinates, model=%s)" % model,
+                     {k: (lambda w=w: Point(w, model=model)) for k, w in int_data_packagings(v).items()},
+                     post=post, cls=(d,), require_float=False)
+    # integer matrices
+    n = int(rng.integers(2, 5))
+    while True:
+        A = rng.integers(-3, 4, size=(n, n))
+        if abs(np.linalg.det(A)) > 0.5:
+            break
+    pk = {"float-ndarray": A.astype(float), "int-ndarray": A.astype(np.int64),
+          "int-nested-list": A.tolist(), "float-nested-list": A.astype(float).tolist()}
+    compare_variants(run, "projective.Transformation(integer matrix)",
+                     {k: (lambda w=w: projective.Transformation(w)) for k, w in pk.items()},
+                     post=lambda T: (T.inv(), unit_rep((T @ projective.Point(np.arange(1.0, n + 1))).proj_data),
+                                     (T @ T.inv()).proj_data),
+                     cls=(n,), require_float=False)
+    # signed permutation block for elliptic
+    dd = int(rng.integers(2, 5))
+    P = np.eye(dd, dtype=int)[rng.permutation(dd)] * rng.choice([-1, 1], size=(dd, 1))
+    pk = {"float-ndarray": P.astype(float), "int-ndarray": P, "int-nested-list": P.tolist()}
+    compare_variants(run, "Isometry.elliptic(integer block)",
+                     {k: (lambda w=w: Isometry.elliptic(dd, w)) for k, w in pk.items()},
+                     post=lambda T: (T.inv(), (T @ Point(np.full(dd, 0.1), model="klein")).coords("klein")),
+                     cls=(dd,), require_float=False)
+    pp = projective.Point
+    w = [int(x) for x in rng.integers(1, 6, size=n)]
+    compare_variants(run, "projective.Point(integer coordinates)",
+                     {k: (lambda u=u: pp(u)) for k, u in int_data_packagings(w).items()},
+                     post=lambda p: p.affine_coords(), cls=(n,), require_float=False)
 
 
 COX = [
@@ -571,6 +672,109 @@ def wl_rescaling(run, rng, idx):
                     "P": P0, "lambda_P": lp})
 
 
+EXACT_NULL = {
+    2: [[1, 1, 0], [1, 0, -1], [5, 3, 4], [5, -4, 3], [13, 5, -12], [25, 7, 24], [1, -1, 0],
+        [17, -8, -15]],
+    3: [[3, 1, 2, 2], [1, 0, 0, 1], [7, 2, 3, 6], [9, -4, 4, 7], [3, -2, 1, -2], [1, -1, 0, 0]],
+    4: [[2, 1, 1, 1, 1], [1, 0, 1, 0, 0], [5, 1, 2, 2, 4], [7, -1, 4, 4, -4]],
+}
+
+
+def wl_rescaling_ideal(run, rng, idx):
+    """rays and bi-infinite geodesics: segments with one or two *exactly*
+    lightlike endpoints (integer null vectors) and with ideal points that are
+    null only up to round-off (from angles), under per-unit rescaling."""
+    from geometry_tools.hyperbolic import Point, Segment, IdealPoint, Isometry
+    mon = run.monitor("rescaling")
+    d = 2 + idx % 3
+    pattern = PATTERNS[(idx // 3) % len(PATTERNS)]
+    nulls = EXACT_NULL[d]
+    exact = (idx // 9) % 2 == 0
+    k = int(rng.integers(1, 4))
+    if exact:
+        Q0 = np.array([nulls[i] for i in rng.integers(0, len(nulls), size=k)], dtype=float)
+        Q2 = np.array([nulls[i] for i in rng.integers(0, len(nulls), size=k)], dtype=float)
+    else:
+        u = rh.rand_sphere(rng, d, (k,))
+        Q0 = rh.klein_to_proj(u)
+        u2 = rh.rand_sphere(rng, d, (k,))
+        Q2 = rh.klein_to_proj(u2)
+    kq, kq2 = rh.proj_to_klein(Q0), rh.proj_to_klein(Q2)
+    kp = rh.rand_ball(rng, d, (k,), rmax=0.9)
+    P0 = rh.klein_to_proj(kp)
+    lp = rand_factors(rng, (k, 1), pattern)
+    lq = rand_factors(rng, (k, 1), pattern)
+    lq2 = rand_factors(rng, (k, 1), pattern)
+    case = {"dimension": d, "pattern": pattern, "exact_null": exact, "P": P0, "Q_ideal": Q0,
+            "Q2_ideal": Q2, "lambda_P": lp, "lambda_Q": lq, "lambda_Q2": lq2}
+    run.current_case = case
+    sig = (d, k, pattern, "exact" if exact else "roundoff")
+
+    def judge(op, err, tol=1e-7):
+        run.note_class("rescale-ideal:" + op, *sig)
+        return mon.judge(err, tol, "rescaling/ideal/%s/%s" % (op, pattern),
+                         "%s changes under per-unit rescaling (%s factors, ideal endpoints)"
+                         % (op, pattern), case)
+
+    def unordered(e0, e1):
+        direct = np.max(np.abs(e0 - e1), axis=(-1, -2))
+        swapped = np.max(np.abs(e0 - e1[..., ::-1, :]), axis=(-1, -2))
+        return float(np.max(np.minimum(direct, swapped)))
+
+    for (A0, B0, la, lb, name, ka, kb) in (
+            (P0, Q0, lp, lq, "ray", kp, kq), (Q0, P0, lq, lp, "ray-ideal-first", kq, kp),
+            (Q0, Q2, lq, lq2, "geodesic", kq, kq2)):
+        if np.min(np.linalg.norm(ka - kb, axis=-1)) < 0.2:
+            mon.skip("endpoints nearly coincide")
+            continue
+        s0 = Segment(Point(A0.copy()), Point(B0.copy()))
+        s1 = Segment(Point((A0 * la).copy()), Point((B0 * lb).copy()))
+        e0 = np.asarray(s0.ideal_endpoint_coords("klein"), dtype=float)
+        e1 = np.asarray(s1.ideal_endpoint_coords("klein"), dtype=float)
+        # reference: the two boundary points of the Klein chord through ka, kb
+        dirv = kb - ka
+        a_ = np.sum(dirv * dirv, axis=-1)
+        b_ = 2 * np.sum(ka * dirv, axis=-1)
+        c_ = np.sum(ka * ka, axis=-1) - 1
+        disc = np.sqrt(np.clip(b_ * b_ - 4 * a_ * c_, 0, None))
+        t1, t2 = (-b_ + disc) / (2 * a_), (-b_ - disc) / (2 * a_)
+        ref = np.stack([ka + t1[:, None] * dirv, ka + t2[:, None] * dirv], axis=-2)
+        judge(name + "-ideal-endpoints-vs-reference", unordered(ref, e1), 1e-6)
+        judge(name + "-ideal-endpoints(unordered)", unordered(e0, e1), 1e-6)
+        judge(name + "-endpoints",
+              float(np.max(np.abs(np.asarray(s0.endpoint_coords("klein")) -
+                                  np.asarray(s1.endpoint_coords("klein"))))))
+        if d == 2:
+            c0, r0, th0 = s0.circle_parameters(model="poincare", degrees=False)
+            c1, r1, th1 = s1.circle_parameters(model="poincare", degrees=False)
+            r0 = np.asarray(r0, dtype=float)
+            r1 = np.asarray(r1, dtype=float)
+            # reference circle: orthogonal to the unit circle through the two
+            # boundary points ref[...,0,:], ref[...,1,:]
+            m = 0.5 * (ref[..., 0, :] + ref[..., 1, :])
+            m2 = np.sum(m * m, axis=-1)
+            ok = (m2 > 1e-3) & np.isfinite(r1) & (r1 < 50)
+            if np.any(ok):
+                cref = m / m2[:, None]
+                rref = np.sqrt(np.clip(1 / m2 - 1, 0, None))
+                judge(name + "-circle-centre-vs-reference",
+                      float(np.max(np.abs(np.asarray(c1)[ok] - cref[ok]) / (1 + np.abs(cref[ok])))), 1e-5)
+                judge(name + "-circle-radius-vs-reference",
+                      float(np.max(np.abs(r1[ok] - rref[ok]) / rref[ok])), 1e-5)
+                dth = np.angle(np.exp(1j * (np.asarray(th0)[ok] - np.asarray(th1)[ok])))
+                judge(name + "-circle-angles", float(np.max(np.abs(dth) * np.minimum(r0[ok], 1e3)[..., None])), 1e-5)
+    # coordinates of ideal points themselves
+    q0, q1 = Point(Q0.copy()), Point((Q0 * lq).copy())
+    for model in ("klein", "poincare"):
+        judge("ideal-coords:" + model,
+              float(np.max(np.abs(np.asarray(q0.coords(model)) - np.asarray(q1.coords(model))))))
+    A = rh.rand_isometry(rng, d)
+    T = Isometry(A, column_vectors=True)
+    judge("ideal-image", float(np.max(np.abs(klein_of(T @ q0) - klein_of(T @ q1)))))
+    if idx < 1:
+        run.sample({"dimension": d, "pattern": pattern, "Q_ideal": Q0, "lambda_Q": lq})
+
+
 def wl_docs(run, rng, idx):
     """the documentation's python blocks and examples/*.py, run as programs."""
     from .. import examples
@@ -600,6 +804,8 @@ WORKLOADS = [
     Workload("packaging-scalar", wl_packaging_scalar, quick=12, thorough=300),
     Workload("packaging-matrix", wl_packaging_matrix, quick=12, thorough=300),
     Workload("packaging-coxeter", wl_packaging_coxeter, quick=8, thorough=64),
+    Workload("packaging-integer-data", wl_packaging_integer_data, quick=25, thorough=250),
     Workload("rescaling", wl_rescaling, quick=240, thorough=6000),
+    Workload("rescaling-ideal", wl_rescaling_ideal, quick=90, thorough=1800),
     Workload("docs", wl_docs, quick=12, thorough=12),
 ]
